@@ -87,7 +87,7 @@ let () =
       let t = { a = Array.of_list (words payload); i = 0 } in
       try
         match kind with
-        | "off" | "offlit" -> do_off id t
+        | "off" -> do_off id t
         | "uni" -> do_uni id t
         | _ -> ()
       with e -> out id "S" ("driver-error " ^ Printexc.to_string e));
